@@ -380,6 +380,7 @@ PROPERTIES = {
             ('C02-R5', c02.rule_globstar_predicate, 'quick'),
             ('C17-R5', cflags.rule_sep_parametric, 'quick'),
             ('C02-R10', cextra.rule_lookahead_putback, 'quick'),
+            ('C01-R6', cextra.rule_inverse_cleanup, 'quick'),  # unbalanced regex = re.error (F23)
             ('C02-R7', c02.rule_nodir, 'quick'),  # the tail of translate / compile_pattern indexes positive[0]
         ],
     },
